@@ -97,6 +97,60 @@ func protos() map[string]interface{} {
 	return m
 }
 
+// kindType maps a field kind of the specification to a Go type.
+func kindType(k string) (reflect.Type, reflect.StructTag, error) {
+	switch k {
+	case "byte":
+		return reflect.TypeOf(uint8(0)), "", nil
+	case "bool":
+		return reflect.TypeOf(false), "", nil
+	case "u32":
+		return reflect.TypeOf(uint32(0)), "", nil
+	case "u64":
+		return reflect.TypeOf(uint64(0)), "", nil
+	case "string":
+		return reflect.TypeOf(""), "", nil
+	case "bytes":
+		return reflect.TypeOf([]byte(nil)), "", nil
+	case "rest":
+		return reflect.TypeOf([]byte(nil)), `ssh:"rest"`, nil
+	case "namelist":
+		return reflect.TypeOf([]string(nil)), "", nil
+	case "mpint":
+		return bigIntType, "", nil
+	}
+	if strings.HasPrefix(k, "arr") {
+		if n, err := strconv.Atoi(k[3:]); err == nil && n > 0 {
+			return reflect.ArrayOf(n, reflect.TypeOf(uint8(0))), "", nil
+		}
+	}
+	return nil, "", fmt.Errorf("unknown field kind %q", k)
+}
+
+// shapeProto builds, with reflect.StructOf, the struct of a position-complete shape of the specification
+// (ShapeTable in spec/SSHWire.tla): fields F0..Fn of the given kinds, sshtype tag on the first field.
+func shapeProto(s sig) (interface{}, error) {
+	var fs []reflect.StructField
+	for i, k := range s.Fields {
+		t, tag, err := kindType(k)
+		if err != nil {
+			return nil, err
+		}
+		if i == 0 && len(s.Types) > 0 {
+			parts := make([]string, len(s.Types))
+			for j, x := range s.Types {
+				parts[j] = strconv.Itoa(x)
+			}
+			if tag != "" {
+				tag += " "
+			}
+			tag += reflect.StructTag(`sshtype:"` + strings.Join(parts, "|") + `"`)
+		}
+		fs = append(fs, reflect.StructField{Name: fmt.Sprintf("F%d", i), Type: t, Tag: tag})
+	}
+	return reflect.New(reflect.StructOf(fs)).Interface(), nil
+}
+
 func goSig(t reflect.Type) (sig, error) {
 	s := sig{Types: []int{}, Fields: []string{}}
 	if t.NumField() > 0 {
@@ -172,8 +226,18 @@ func declaredStructs() ([]string, error) {
 	return out, nil
 }
 
-func crossCheck(table map[string]sig) error {
-	ps := protos()
+func crossCheck(table map[string]sig, ps map[string]interface{}) error {
+	shapes := 0
+	for n, sg := range table {
+		if strings.HasPrefix(n, "shape_") {
+			p, err := shapeProto(sg)
+			if err != nil {
+				return err
+			}
+			ps[n] = p
+			shapes++
+		}
+	}
 	decl, err := declaredStructs()
 	if err != nil {
 		return err
@@ -186,8 +250,8 @@ func crossCheck(table map[string]sig) error {
 			return fmt.Errorf("struct %s of messages.go is missing from MsgTable in spec/SSHWire.tla", n)
 		}
 	}
-	if len(decl)+len(adhoc) != len(table) || len(ps) != len(table) {
-		return fmt.Errorf("MsgTable has %d entries, messages.go declares %d structs (+%d ad hoc), hook returns %d", len(table), len(decl), len(adhoc), len(ps)-len(adhoc))
+	if len(decl)+len(adhoc)+shapes != len(table) || len(ps) != len(table) {
+		return fmt.Errorf("MsgTable has %d entries, messages.go declares %d structs (+%d ad hoc, %d shapes), hook returns %d", len(table), len(decl), len(adhoc), shapes, len(ps)-len(adhoc)-shapes)
 	}
 	for n, p := range ps {
 		want, ok := table[n]
@@ -483,6 +547,9 @@ func TestReplay(t *testing.T) {
 	var table map[string]sig
 	var pending [][]byte
 	mutN, truncN := 0, 0
+	// vacuity guard: (field kind, position) pairs whose round trip ran, and for the kind in LAST position the
+	// three boundary inputs: exactly enough bytes / one byte short / one byte extra
+	cover := map[string]int{}
 	process := func(line []byte) error {
 		var c tcase
 		if err := json.Unmarshal(line, &c); err != nil {
@@ -551,9 +618,30 @@ func TestReplay(t *testing.T) {
 				}
 			}
 		}
+		nf := len(s.Fields)
+		for i, k := range s.Fields {
+			if i == 0 {
+				cover[k+"|first"]++
+			}
+			if i == nf-1 {
+				cover[k+"|last"]++
+				cover[k+"|last|exact"]++
+			}
+			if i > 0 && i < nf-1 {
+				cover[k+"|middle"]++
+			}
+		}
 		// mutants with the model's prediction
 		for _, m := range c.Muts {
 			mutN++
+			if nf > 0 {
+				if m.M == "trail" && m.A == 1 {
+					cover[s.Fields[nf-1]+"|last|extra"]++
+				}
+				if m.M == "trunc" && m.A == len(wire)-1 {
+					cover[s.Fields[nf-1]+"|last|short"]++
+				}
+			}
 			data := applyMut(wire, m)
 			dst := reflect.New(typ)
 			err, pan := safeUnmarshal(data, dst.Interface())
@@ -612,7 +700,7 @@ func TestReplay(t *testing.T) {
 			}
 			if c.Table != nil {
 				table = c.Table
-				if err := crossCheck(table); err != nil {
+				if err := crossCheck(table, ps); err != nil {
 					return fmt.Errorf("SIGNATURE TABLE MISMATCH (infrastructure, not a verdict): %w", err)
 				}
 				// decode dispatch: types outside the specification's DecodeTable must be rejected
@@ -674,6 +762,7 @@ func TestReplay(t *testing.T) {
 	if pan1 != "" || pan2 != "" {
 		r.viol("codec-zero-field-struct-panics", "Marshal/Unmarshal panic (reflect: Field index out of bounds in typeTags) for userAuthSuccessMsg, the message struct of messages.go that has no fields", map[string]any{"marshal": pan1, "unmarshal": pan2})
 	}
+	out.Extra["c24_kind_position_cover"] = cover
 	out.Extra["c24_mutants"] = mutN
 	out.Extra["c24_truncations"] = truncN
 	for k, n := range r.sigCount {
